@@ -426,6 +426,9 @@ func init() {
 		}
 		return uint64(n), true
 	}
+	harnessAPI["zzTier"] = func(m *Machine, fr *frame, fn *ssa.Function, args []value) (value, bool) {
+		return uint64(m.P.Tier), true
+	}
 	harnessAPI["zzIsSymbolic"] = func(m *Machine, fr *frame, fn *ssa.Function, args []value) (value, bool) {
 		return true, true
 	}
